@@ -128,20 +128,23 @@ theorem err_read (s : W2AState) (m : WbM) (r : AxlS) (hs : s.st = .read)
   simp [toSlave, hs] at hr
   constructor <;> intro hb <;> simp [next, toMaster, hs, hv, hr, hb]
 
-/-! ### the address subtraction is right exactly for 32-bit word addressing -/
+/-! ### the address subtraction is the byte-address subtraction, for every word size -/
 
 theorem subTrunc_scale (k a b z : Nat) :
     ((a % k + (k - b % k)) % k) * z = ((a * z) % (k * z) + (k * z - (b * z) % (k * z))) % (k * z) := by
   rw [Nat.mul_comm a z, Nat.mul_comm b z, Nat.mul_comm k z, Nat.mul_mod_mul_left, Nat.mul_mod_mul_left,
     ← Nat.mul_sub, ← Nat.mul_add, Nat.mul_mod_mul_left, Nat.mul_comm]
 
-theorem axAddr_correct (c : W2ACfg) (hs : c.shift = 2) (hb : c.base % 4 = 0) (adr : Nat) :
-    axAddr c adr = subTrunc (c.adrBits + 2) (adr * 4) c.base := by
+theorem axAddr_correct (c : W2ACfg) (hb : c.base % 2 ^ c.shift = 0) (adr : Nat) :
+    axAddr c adr = subTrunc (c.adrBits + c.shift) (adr * 2 ^ c.shift) c.base := by
   unfold axAddr subTrunc
-  have h4 : c.base = c.base / 4 * 4 := by omega
-  have hp : 2 ^ (c.adrBits + 2) = 2 ^ c.adrBits * 4 := by rw [Nat.pow_add]
-  rw [hs, hp]
+  have h4 : c.base = c.base / 2 ^ c.shift * 2 ^ c.shift := by
+    have := Nat.div_add_mod c.base (2 ^ c.shift)
+    rw [hb, Nat.add_zero, Nat.mul_comm] at this
+    exact this.symm
+  have hp : 2 ^ (c.adrBits + c.shift) = 2 ^ c.adrBits * 2 ^ c.shift := by rw [Nat.pow_add]
+  rw [hp]
   conv => rhs; rw [h4]
-  exact subTrunc_scale (2 ^ c.adrBits) adr (c.base / 4) 4
+  exact subTrunc_scale (2 ^ c.adrBits) adr (c.base / 2 ^ c.shift) (2 ^ c.shift)
 
 end Litex.Bridge.Wb2Axl
